@@ -43,7 +43,7 @@ Definition dec_trace (cs : list N) : trace :=
   match cs with
   | contract :: role_n :: idmax :: idw :: ver :: rest =>
     let g := mkCfg (role_of role_n) idmax idw in
-    let '(os, ok) := dec_obs (length rest) g (conn_new g (ver_of ver)) rest in
+    let '(os, ok) := dec_obs (S (length rest)) g (conn_new g (ver_of ver)) rest in
     mkTrace (n2b contract) g (ver_of ver) os ok
   | _ => mkTrace false (mkCfg RAny 65535 2) VUndet [] false
   end.
